@@ -5,6 +5,7 @@ import (
 	"crypto/md5"
 	"crypto/sha1"
 	"encoding/base64"
+	"encoding/binary"
 	"encoding/hex"
 	"encoding/json"
 	"fmt"
@@ -300,44 +301,63 @@ func CalcStartReInitDKGMessageHash(payload []byte) ([]byte, error) {
 		return nil, fmt.Errorf("failed to unmarshal payload: %w", err)
 	}
 
-	hashPayload := bytes.NewBuffer([]byte(msg.DKGID))
-	if _, err := hashPayload.Write([]byte(fmt.Sprintf("%d", msg.Threshold))); err != nil {
+	// Every field is hashed together with its length and every list together with the number of its elements: a plain
+	// concatenation gives the same bytes for different messages (a key moved into its neighbour's unused field, a
+	// private message turned into a broadcast), and this hash is all that authenticates a reinit message.
+	hashPayload := bytes.NewBuffer(nil)
+	write := func(field []byte) error {
+		var length [8]byte
+		binary.BigEndian.PutUint64(length[:], uint64(len(field)))
+		hashPayload.Write(length[:])
+		_, err := hashPayload.Write(field)
+		return err
+	}
+	if err := write([]byte(msg.DKGID)); err != nil {
+		return nil, err
+	}
+	if err := write([]byte(fmt.Sprintf("%d", msg.Threshold))); err != nil {
+		return nil, err
+	}
+	if err := write([]byte(fmt.Sprintf("%d", len(msg.Participants)))); err != nil {
 		return nil, err
 	}
 	for _, p := range msg.Participants {
-		if _, err := hashPayload.Write(p.NewCommPubKey); err != nil {
+		if err := write(p.NewCommPubKey); err != nil {
 			return nil, err
 		}
-		if _, err := hashPayload.Write(p.OldCommPubKey); err != nil {
+		if err := write(p.OldCommPubKey); err != nil {
 			return nil, err
 		}
-		if _, err := hashPayload.Write(p.DKGPubKey); err != nil {
+		if err := write(p.DKGPubKey); err != nil {
 			return nil, err
 		}
-		if _, err := hashPayload.Write([]byte(p.Name)); err != nil {
+		if err := write([]byte(p.Name)); err != nil {
 			return nil, err
 		}
 	}
+	if err := write([]byte(fmt.Sprintf("%d", len(msg.Messages)))); err != nil {
+		return nil, err
+	}
 	for _, m := range msg.Messages {
-		if _, err := hashPayload.Write(m.Data); err != nil {
+		if err := write(m.Data); err != nil {
 			return nil, err
 		}
-		if _, err := hashPayload.Write(m.Signature); err != nil {
+		if err := write(m.Signature); err != nil {
 			return nil, err
 		}
-		if _, err := hashPayload.Write([]byte(m.RecipientAddr)); err != nil {
+		if err := write([]byte(m.RecipientAddr)); err != nil {
 			return nil, err
 		}
-		if _, err := hashPayload.Write([]byte(m.Event)); err != nil {
+		if err := write([]byte(m.Event)); err != nil {
 			return nil, err
 		}
-		if _, err := hashPayload.Write([]byte(m.SenderAddr)); err != nil {
+		if err := write([]byte(m.SenderAddr)); err != nil {
 			return nil, err
 		}
-		if _, err := hashPayload.Write([]byte(m.DkgRoundID)); err != nil {
+		if err := write([]byte(m.DkgRoundID)); err != nil {
 			return nil, err
 		}
-		if _, err := hashPayload.Write([]byte(fmt.Sprintf("%d", m.Offset))); err != nil {
+		if err := write([]byte(fmt.Sprintf("%d", m.Offset))); err != nil {
 			return nil, err
 		}
 	}
